@@ -1715,6 +1715,204 @@ M('C08', 'notation-skip-name-len', SS, "        nlen = self.bytes_to_int(packet[
 M('C08', 'subpacket-update-hlen-off', ST, "        self.header.length = (len(self.__bytearray__()) - len(self.header)) + 1", "        self.header.length = (len(self.__bytearray__()) - len(self.header))", 'C08.h')
 T('C08', 'twin-read-local', PK, "        self.mtime = packet[:4]\n        del packet[:4]", "        raw_time = packet[:4]\n        del packet[:4]\n        self.mtime = raw_time")
 T('C08', 'twin-pend-inline', PK, "        pend = self.header.length - 6\n        self.keymaterial.parse(packet[:pend])\n        del packet[:pend]", "        self.keymaterial.parse(packet[:self.header.length - 6])\n        del packet[:self.header.length - 6]")
+# --- C08 hardening (semantic rules): new mutants per rewritten rule, twin families that must stay silent
+M('C08', 'literal-remainder-misses-format-octet', PK, '        self._contents = packet[:self.header.length - (6 + fnl)]\n        del packet[:self.header.length - (6 + fnl)]',
+  '        consumed = 1 + fnl + 4\n        self._contents = packet[:self.header.length - consumed]\n        del packet[:self.header.length - consumed]', 'C08.d')
+M('C08', 'onepass-offset-reads-swapped', PK, '        self.sigtype = packet[0]\n        del packet[0]\n\n        self.halg = packet[0]\n        del packet[0]\n\n        self.pubalg = packet[0]\n        del packet[0]\n\n        self.signer = packet[:8]\n        del packet[:8]\n\n        self.nested = (packet[0] == 1)\n        del packet[0]',
+  '        self.sigtype = packet[0]\n        self.pubalg = packet[1]\n        self.halg = packet[2]\n        del packet[:3]\n\n        self.signer = packet[:8]\n        del packet[:8]\n\n        self.nested = (packet[0] == 1)\n        del packet[0]', 'C08.c')
+M('C08', 'onepass-offset-read-gap', PK, '        self.sigtype = packet[0]\n        del packet[0]\n\n        self.halg = packet[0]\n        del packet[0]\n\n        self.pubalg = packet[0]\n        del packet[0]\n\n        self.signer = packet[:8]\n        del packet[:8]\n\n        self.nested = (packet[0] == 1)\n        del packet[0]',
+  '        self.sigtype = packet[0]\n        self.halg = packet[1]\n        self.pubalg = packet[2]\n        del packet[:3]\n\n        self.signer = packet[1:9]\n        del packet[:8]\n\n        self.nested = (packet[0] == 1)\n        del packet[0]', 'C08.a')
+M('C08', 'onepass-merged-del-short', PK, '        self.sigtype = packet[0]\n        del packet[0]\n\n        self.halg = packet[0]\n        del packet[0]\n\n        self.pubalg = packet[0]\n        del packet[0]\n\n        self.signer = packet[:8]\n        del packet[:8]\n\n        self.nested = (packet[0] == 1)\n        del packet[0]',
+  '        self.sigtype = packet[0]\n        self.halg = packet[1]\n        self.pubalg = packet[2]\n        del packet[:2]\n\n        self.signer = packet[:8]\n        del packet[:8]\n\n        self.nested = (packet[0] == 1)\n        del packet[0]', 'C08.a')
+M('C08', 'rsa-parse-locals-swapped', FL, '    def parse(self, packet):\n        self.n = MPI(packet)\n        self.e = MPI(packet)\n\n\nclass DSAPub',
+  '    def parse(self, packet):\n        e = MPI(packet)\n        n = MPI(packet)\n        self.n, self.e = n, e\n\n\nclass DSAPub', 'C08.c')
+M('C08', 'hashed-area-peek-short', FL, '        hashed_raw = packet[:2 + hl]\n',
+  '        hashed_raw = packet[:1 + hl]\n', 'C08.a')
+M('C08', 'hashed-area-peek-transformed', FL, '        self._hashed_raw = hashed_raw\n',
+  '        self._hashed_raw = hashed_raw[2:]\n', 'C08.a')
+M('C08', 'notation-offset-reads-overlap', SS, '        self.flags = packet[:1]\n        del packet[:4]\n        nlen = self.bytes_to_int(packet[:2])\n        del packet[:2]\n        vlen = self.bytes_to_int(packet[:2])\n        del packet[:2]\n',
+  '        self.flags = packet[:1]\n        nlen = self.bytes_to_int(packet[4:6])\n        vlen = self.bytes_to_int(packet[5:7])\n        del packet[:8]\n', 'C08.a')
+M('C08', 'notation-offset-reads-del-short', SS, '        self.flags = packet[:1]\n        del packet[:4]\n        nlen = self.bytes_to_int(packet[:2])\n        del packet[:2]\n        vlen = self.bytes_to_int(packet[:2])\n        del packet[:2]\n',
+  '        self.flags = packet[:1]\n        nlen = self.bytes_to_int(packet[4:6])\n        vlen = self.bytes_to_int(packet[6:8])\n        del packet[:7]\n', 'C08.a')
+M('C08', 'dispatch-factory-gets-root-class', TY, '    def __call__(cls, packet=None):  # NOQA\n        def _makeobj(cls):\n            obj = object.__new__(cls)\n            obj.__init__()\n            return obj\n\n',
+  '    @staticmethod\n    def _makeobj(cls):\n        obj = object.__new__(cls)\n        obj.__init__()\n        return obj\n\n    def __call__(cls, packet=None):  # NOQA\n', 'C08.g', more=[(TY, '            obj = _makeobj(ncls)\n', '            obj = MetaDispatchable._makeobj(rcls)\n'), (TY, '            obj = _makeobj(cls)\n', '            obj = MetaDispatchable._makeobj(cls)\n')])
+M('C08', 'skesk-remainder-minus-1', PK, '        ctend = self.header.length - len(self.s2k)\n',
+  '        ctend = self.header.length - len(self.s2k) - 1\n', 'C08.d')
+M('C08', 'sigv4-tuple-reads-swapped', PK, '        self.sigtype = packet[0]\n        del packet[0]\n\n        self.pubalg = packet[0]\n        del packet[0]\n\n        self.halg = packet[0]\n        del packet[0]\n\n        self.subpackets.parse(packet)\n\n        self.hash2 = packet[:2]\n        del packet[:2]\n\n        self.signature.parse(packet)\n',
+  '        sigtype, halg, pubalg = packet[0], packet[1], packet[2]\n        del packet[:3]\n        self.sigtype = sigtype\n        self.pubalg = pubalg\n        self.halg = halg\n\n        sp = self.subpackets\n        sp.parse(packet)\n\n        left16 = packet[:2]\n        del packet[:2]\n        self.hash2 = left16\n\n        self.signature.parse(packet)\n', 'C08.c')
+M('C08', 'pubkey-fixed-part-sum-5', PK, '        self.created = packet[:4]\n        del packet[:4]\n\n        self.pkalg = packet[0]\n        del packet[0]\n\n        # bound keymaterial to the remaining length of the packet\n        pend = self.header.length - 6\n        self.keymaterial.parse(packet[:pend])\n        del packet[:pend]\n',
+  '        self.created = packet[:4]\n        self.pkalg = packet[4]\n        del packet[:5]\n\n        fixed = 4 + 1\n        body = packet[:self.header.length - fixed]\n        self.keymaterial.parse(body)\n        del packet[:self.header.length - fixed]\n', 'C08.d')
+M('C08', 'elg-alias-guard-falls-through', FL, '        if not self.s2k:\n            self.x = MPI(packet)\n\n            if self.s2k.usage == 0:\n                self.chksum = packet[:2]\n                del packet[:2]\n\n        else:\n            self.encbytes = packet\n\n    def decrypt_keyblob(self, passphrase):\n        kb = super(ElGPriv, self).decrypt_keyblob(passphrase)',
+  '        if self.s2k:\n            self.encbytes = packet\n\n        else:\n            self.x = MPI(packet)\n\n        if self.s2k.usage in (0, 255):\n            cks = packet[:2]\n            del packet[:2]\n            self.chksum = cks\n\n    def decrypt_keyblob(self, passphrase):\n        kb = super(ElGPriv, self).decrypt_keyblob(passphrase)', 'C08.b')
+M('C08', 'literal-append-len-chars', PK, '        _bytes += bytearray([len(filename)])\n        _bytes += filename',
+  '        _bytes.append(len(self.filename))\n        _bytes.extend(filename)', 'C08.e')
+M('C08', 'onepass-pop-reads-swapped', PK, '        self.sigtype = packet[0]\n        del packet[0]\n\n        self.halg = packet[0]\n        del packet[0]\n\n        self.pubalg = packet[0]\n        del packet[0]\n\n        self.signer = packet[:8]\n        del packet[:8]\n\n        self.nested = (packet[0] == 1)\n        del packet[0]',
+  '        self.sigtype = packet.pop(0)\n        self.pubalg = packet.pop(0)\n        self.halg = packet.pop(0)\n\n        self.signer = packet[:8]\n        del packet[:8]\n\n        self.nested = (packet.pop(0) == 1)', 'C08.c')
+M('C08', 'uri-bytes-constructor-utf16', SS, '        _bytes += self.uri.encode()\n        return _bytes',
+  "        _bytes += bytes(self.uri, 'utf-16')\n        return _bytes", 'C08.f')
+M('C08', 'filename-str-constructor-latin1', PK, '        self.filename = packet[:fnl].decode()\n',
+  "        self.filename = str(packet[:fnl], 'latin-1')\n", 'C08.f')
+M('C08', 'signer-hex-digits-utf16', PK, "        self._signer = binascii.hexlify(val).upper().decode('latin-1')",
+  '        self._signer = val.hex().upper()', 'C08.f', more=[(PK, '        _bytes += binascii.unhexlify(self.signer.encode("latin-1"))', '        _bytes += binascii.unhexlify(self.signer.encode("utf-16"))')])
+M('C08', 'uid-writer-codec-swapped', PK, "textenc = 'utf-8' if not self._encoding_fallback else 'charmap'",
+  "textenc = 'utf-8' if self._encoding_fallback else 'charmap'", 'C08.f')
+M('C08', 'uid-writer-ignores-fallback', PK, "textenc = 'utf-8' if not self._encoding_fallback else 'charmap'",
+  "textenc = 'utf-8'", 'C08.f')
+M('C08', 'uid-reader-forgets-fallback', PK, "            self.uid = uid_bytes.decode('charmap')\n            self._encoding_fallback = True",
+  "            self.uid = uid_bytes.decode('charmap')", 'C08.f')
+M('C08', 'uid-fallback-other-codec', PK, "            self.uid = uid_bytes.decode('charmap')\n",
+  "            self.uid = uid_bytes.decode('cp437')\n", 'C08.f')
+M('C08', 'uid-flag-set-on-primary-path', PK, "            self.uid = uid_bytes.decode('utf-8')\n",
+  "            self.uid = uid_bytes.decode('utf-8')\n            self._encoding_fallback = True\n", 'C08.f')
+M('C08', 'filename-latin1-writer', PK, "filename = self.filename.encode('utf-8')",
+  "filename = self.filename.encode('latin-1')", 'C08.f')
+M('C08', 'filename-latin1-reader', PK, 'self.filename = packet[:fnl].decode()',
+  "self.filename = packet[:fnl].decode('latin-1')", 'C08.f')
+M('C08', 'literal-format-utf8-writer', PK, "_bytes += self.format.encode('latin-1')",
+  "_bytes += self.format.encode('utf-8')", 'C08.f')
+M('C08', 'issuer-hex-utf16', SS, '_bytes += binascii.unhexlify(self._issuer.encode())',
+  "_bytes += binascii.unhexlify(self._issuer.encode('utf-16'))", 'C08.f')
+M('C08', 'dispatch-fallback-key-0', TY, '                ncls = MetaDispatchable._registry[(rcls, None)]',
+  '                ncls = MetaDispatchable._registry[(rcls, 0)]', 'C08.g')
+M('C08', 'dispatch-unknown-version-keeps-placeholder', TY, '                    else:  # pragma: no cover\n                        ncls = None\n',
+  '                    else:  # pragma: no cover\n                        pass\n', 'C08.g')
+M('C08', 'dispatch-body-parse-unwrapped', TY, '            try:\n                obj.parse(packet)\n\n            except Exception as ex:\n                raise PGPError(str(ex)) from ex\n',
+  '            obj.parse(packet)\n', 'C08.g')
+M('C08', 'dispatch-body-parse-valueerror', TY, '            try:\n                obj.parse(packet)\n\n            except Exception as ex:\n                raise PGPError(str(ex)) from ex\n',
+  '            try:\n                obj.parse(packet)\n\n            except Exception as ex:\n                raise ValueError(str(ex)) from ex\n', 'C08.g')
+M('C08', 'dispatch-body-parse-swallowed', TY, '            try:\n                obj.parse(packet)\n\n            except Exception as ex:\n                raise PGPError(str(ex)) from ex\n',
+  '            try:\n                obj.parse(packet)\n\n            except Exception as ex:\n                pass\n', 'C08.g')
+M('C08', 'dispatch-version-key-constant', TY, '                        ncls = MetaDispatchable._registry[(rcls, header.typeid, header.version)]',
+  '                        ncls = MetaDispatchable._registry[(rcls, header.typeid, 4)]', 'C08.g')
+M('C08', 'opaque-ignores-version-octet', PT, "        if hasattr(self.header, 'version'):\n            pend -= 1\n\n        self.payload",
+  '        self.payload', 'C08.g')
+M('C08', 'opaque-version-adjust-2', PT, '            pend -= 1\n\n        self.payload',
+  '            pend -= 2\n\n        self.payload', 'C08.g')
+M('C08', 'opaque-payload-transformed', PT, '        self.payload = packet[:pend]\n        del packet[:pend]',
+  '        self.payload = packet[:pend].upper()\n        del packet[:pend]', 'C08.g')
+M('C08', 'trust-typeid-wrong', PK, '    __typeid__ = 0x0C\n',
+  '    __typeid__ = 0x1C\n', 'C08.g')
+M('C08', 'pubsubkeyv4-ver-0', PK, 'class PubSubKeyV4(PubSubKey, PubKeyV4):\n    __ver__ = 4',
+  'class PubSubKeyV4(PubSubKey, PubKeyV4):\n    __ver__ = 0', 'C08.g')
+M('C08', 'onepass-update-before-signer', PGP, '        onepass.signer = self.signer\n        onepass.update_hlen()',
+  '        onepass.update_hlen()\n        onepass.signer = self.signer', 'C08.h')
+M('C08', 'mdc-update-on-wrong-object', PK, '        mdc.update_hlen()\n\n        data += mdc.__bytes__()',
+  '        self.update_hlen()\n\n        data += mdc.__bytes__()', 'C08.h')
+M('C08', 'pubkey-update-only-for-ecdh', PK, '            pk.keymaterial.kdf = copy.copy(self.keymaterial.kdf)\n\n        pk.update_hlen()',
+  '            pk.keymaterial.kdf = copy.copy(self.keymaterial.kdf)\n            pk.update_hlen()', 'C08.h')
+M('C08', 'pubkey-update-before-curve', PK, '        if self.pkalg in {PubKeyAlgorithm.ECDSA, PubKeyAlgorithm.EdDSA}:\n            pk.keymaterial.oid = self.keymaterial.oid\n\n        if self.pkalg == PubKeyAlgorithm.ECDH:\n            pk.keymaterial.oid = self.keymaterial.oid\n            pk.keymaterial.kdf = copy.copy(self.keymaterial.kdf)\n\n        pk.update_hlen()\n        return pk',
+  '        pk.update_hlen()\n        if self.pkalg in {PubKeyAlgorithm.ECDSA, PubKeyAlgorithm.EdDSA}:\n            pk.keymaterial.oid = self.keymaterial.oid\n\n        if self.pkalg == PubKeyAlgorithm.ECDH:\n            pk.keymaterial.oid = self.keymaterial.oid\n            pk.keymaterial.kdf = copy.copy(self.keymaterial.kdf)\n\n        return pk', 'C08.h')
+M('C08', 'sign-update-before-from-signer', PGP, '        sig._signature.signature.from_signer(_sig)\n        sig._signature.update_hlen()',
+  '        sig._signature.update_hlen()\n        sig._signature.signature.from_signer(_sig)', 'C08.h')
+M('C08', 'addnew-update-before-setattr', FL, '        nsp = getattr(self._spmodule, spname)()\n        for p, v in kwargs.items():\n            if hasattr(nsp, p):\n                setattr(nsp, p, v)\n        nsp.update_hlen()',
+  '        nsp = getattr(self._spmodule, spname)()\n        nsp.update_hlen()\n        for p, v in kwargs.items():\n            if hasattr(nsp, p):\n                setattr(nsp, p, v)', 'C08.h')
+M('C08', 'literal-update-before-format', PGP, "            lit.format = format\n\n            # if cls.is_ascii(message):\n            #     lit.format = 't'\n\n            lit.update_hlen()",
+  '            lit.update_hlen()\n            lit.format = format', 'C08.h')
+M('C08', 'protect-no-update', PK, '        self.keymaterial.encrypt_keyblob(passphrase, enc_alg, hash_alg)\n        del passphrase\n        self.update_hlen()',
+  '        self.keymaterial.encrypt_keyblob(passphrase, enc_alg, hash_alg)\n        del passphrase', 'C08.h')
+M('C08', 'compressed-no-update', PGP, '            comp.packets = [pkt for pkt in self]\n            comp.update_hlen()',
+  '            comp.packets = [pkt for pkt in self]', 'C08.h')
+M('C08', 'sigv4-own-length-first', PK, '        self.subpackets.update_hlen()\n        super(SignatureV4, self).update_hlen()',
+  '        super(SignatureV4, self).update_hlen()\n        self.subpackets.update_hlen()', 'C08.h')
+M('C08', 'userattribute-no-inner-update', PK, '        self.subpackets.update_hlen()\n        super(UserAttribute, self).update_hlen()',
+  '        super(UserAttribute, self).update_hlen()', 'C08.h')
+M('C08', 'packet-hlen-includes-header', PT, '        self.header.length = len(self.__bytearray__()) - len(self.header)',
+  '        self.header.length = len(self.__bytearray__())', 'C08.h')
+T('C08', 'twin-uid-codec-if-else', PK, "        textenc = 'utf-8' if not self._encoding_fallback else 'charmap'\n        _bytes += self.uid.encode(textenc)",
+  "        if self._encoding_fallback:\n            _bytes += self.uid.encode('charmap')\n        else:\n            _bytes += self.uid.encode(encoding='utf-8')")
+T('C08', 'twin-uid-flag-is-true', PK, "textenc = 'utf-8' if not self._encoding_fallback else 'charmap'",
+  "textenc = 'charmap' if self._encoding_fallback is True else 'utf-8'")
+T('C08', 'twin-filename-raw-local', PK, '        self.filename = packet[:fnl].decode()\n',
+  "        raw_name = bytes(packet[:fnl])\n        self.filename = raw_name.decode('UTF8')\n")
+T('C08', 'twin-decode-text-inlined', SS, '    def uri_bytearray(self, val):\n        self.uri = self._decode_text(val)',
+  "    def uri_bytearray(self, val):\n        try:\n            text = val.decode('utf-8')\n        except UnicodeDecodeError:\n            text = val.decode('latin-1')\n        self.uri = text")
+T('C08', 'twin-signer-default-codec', PK, 'self.signer.encode("latin-1")',
+  'self.signer.encode()')
+T('C08', 'twin-onepass-renamed-reordered', PGP, '        onepass = OnePassSignatureV3()\n        onepass.sigtype = self.type\n        onepass.halg = self.hash_algorithm\n        onepass.pubalg = self.key_algorithm\n        onepass.signer = self.signer\n        onepass.update_hlen()\n        return onepass',
+  '        ops = OnePassSignatureV3()\n        ops.signer = self.signer\n        ops.pubalg = self.key_algorithm\n        ops.halg = self.hash_algorithm\n        ops.sigtype = self.type\n        pkt = ops\n        pkt.update_hlen()\n        return pkt')
+T('C08', 'twin-uid-new-built-in-local', PGP, "            uid._uid = UserID()\n            uidstr = pn\n            if comment:\n                uidstr += ' (' + comment + ')'\n            if email:\n                uidstr += ' <' + email + '>'\n            uid._uid.uid = uidstr\n            uid._uid.update_hlen()",
+  "            uidstr = pn\n            if comment:\n                uidstr += ' (' + comment + ')'\n            if email:\n                uidstr += ' <' + email + '>'\n            pkt = UserID()\n            pkt.uid = uidstr\n            pkt.update_hlen()\n            uid._uid = pkt")
+T('C08', 'twin-sigv4-explicit-base-call', PK, '        self.subpackets.update_hlen()\n        super(SignatureV4, self).update_hlen()',
+  '        sp = self.subpackets\n        sp.update_hlen()\n        VersionedPacket.update_hlen(self)')
+T('C08', 'twin-hlen-temporaries', PT, '        self.header.length = len(self.__bytearray__()) - len(self.header)',
+  '        body = self.__bytearray__()\n        hdr = len(self.header)\n        self.header.length = -hdr + len(body)')
+T('C08', 'twin-mdc-renamed', PK, "        mdc = MDC()\n        mdc.mdc = binascii.hexlify(hashlib.new('SHA1', data + b'\\xd3\\x14').digest())\n        mdc.update_hlen()\n\n        data += mdc.__bytes__()",
+  "        digest = binascii.hexlify(hashlib.new('SHA1', data + b'\\xd3\\x14').digest())\n        trailer = MDC()\n        trailer.mdc = digest\n        trailer.update_hlen()\n\n        data += trailer.__bytes__()")
+T('C08', 'twin-protect-km-local', PK, '        self.keymaterial.encrypt_keyblob(passphrase, enc_alg, hash_alg)\n        del passphrase\n        self.update_hlen()',
+  '        km = self.keymaterial\n        km.encrypt_keyblob(passphrase, enc_alg, hash_alg)\n        del passphrase\n        self.update_hlen()')
+T('C08', 'twin-opaque-skip-expression', PT, "        pend = self.header.length\n        if hasattr(self.header, 'version'):\n            pend -= 1\n\n        self.payload = packet[:pend]\n        del packet[:pend]",
+  "        skip = 1 if hasattr(self.header, 'version') else 0\n        body_len = self.header.length - skip\n        body = packet[:body_len]\n        del packet[:body_len]\n        self.payload = body")
+T('C08', 'twin-dispatch-registry-local', TY, '            ncls = None\n            if (rcls, header.typeid) in MetaDispatchable._registry:\n                ncls = MetaDispatchable._registry[(rcls, header.typeid)]\n',
+  '            reg = MetaDispatchable._registry\n            ncls = None\n            if (rcls, header.typeid) in reg:\n                ncls = reg[rcls, header.typeid]\n')
+T('C08', 'twin-dispatch-raise-local', TY, '            try:\n                obj.parse(packet)\n\n            except Exception as ex:\n                raise PGPError(str(ex)) from ex\n',
+  '            try:\n                obj.parse(packet)\n\n            except Exception as exc:\n                err = PGPError(str(exc))\n                raise err from exc\n')
+T('C08', 'twin-typeid-folded', PK, '    __typeid__ = 0x0C\n',
+  '    __typeid__ = 8 + 4\n')
+T('C08', 'twin-onepass-merged-del', PK, '        self.sigtype = packet[0]\n        del packet[0]\n\n        self.halg = packet[0]\n        del packet[0]\n\n        self.pubalg = packet[0]\n        del packet[0]\n\n        self.signer = packet[:8]\n        del packet[:8]\n\n        self.nested = (packet[0] == 1)\n        del packet[0]',
+  '        self.sigtype = packet[0]\n        self.halg = packet[1]\n        self.pubalg = packet[2]\n        del packet[:3]\n\n        self.signer = packet[:8]\n        del packet[:8]\n\n        self.nested = (packet[0] == 1)\n        del packet[0]')
+T('C08', 'twin-onepass-all-offsets', PK, '        self.sigtype = packet[0]\n        del packet[0]\n\n        self.halg = packet[0]\n        del packet[0]\n\n        self.pubalg = packet[0]\n        del packet[0]\n\n        self.signer = packet[:8]\n        del packet[:8]\n\n        self.nested = (packet[0] == 1)\n        del packet[0]',
+  '        self.sigtype = packet[0]\n        self.halg = packet[1]\n        self.pubalg = packet[2]\n        self.signer = packet[3:11]\n        self.nested = (packet[11] == 1)\n        del packet[:12]')
+T('C08', 'twin-onepass-temporaries', PK, '        self.sigtype = packet[0]\n        del packet[0]\n\n        self.halg = packet[0]\n        del packet[0]\n\n        self.pubalg = packet[0]\n        del packet[0]\n\n        self.signer = packet[:8]\n        del packet[:8]\n\n        self.nested = (packet[0] == 1)\n        del packet[0]',
+  '        sigtype = packet[0]\n        del packet[0]\n        halg = packet[0]\n        del packet[0]\n        pubalg = packet[0]\n        del packet[0]\n        keyid = packet[:8]\n        del packet[:8]\n        nested_flag = packet[0]\n        del packet[0]\n\n        self.sigtype = sigtype\n        self.halg = halg\n        self.pubalg = pubalg\n        self.signer = keyid\n        self.nested = (nested_flag == 1)')
+T('C08', 'twin-onepass-writer-merged', PK, '        _bytes += bytearray([self.sigtype])\n        _bytes += bytearray([self.halg])\n        _bytes += bytearray([self.pubalg])\n        _bytes += binascii.unhexlify(self.signer.encode("latin-1"))\n        _bytes += bytearray([int(self.nested)])\n        return _bytes',
+  '        _bytes += bytearray([self.sigtype, self.halg, self.pubalg])\n        keyid = binascii.unhexlify(self.signer.encode("latin-1"))\n        _bytes.extend(keyid)\n        _bytes.append(int(self.nested))\n        return _bytes')
+T('C08', 'twin-literal-rest-local', PK, '        self._contents = packet[:self.header.length - (6 + fnl)]\n        del packet[:self.header.length - (6 + fnl)]',
+  '        rest = self.header.length - fnl - 6\n        self._contents = packet[:rest]\n        del packet[:rest]')
+T('C08', 'twin-literal-consumed-sum', PK, '        self._contents = packet[:self.header.length - (6 + fnl)]\n        del packet[:self.header.length - (6 + fnl)]',
+  '        consumed = 1 + 1 + fnl + 4\n        self._contents = packet[:self.header.length - consumed]\n        del packet[:self.header.length - consumed]')
+T('C08', 'twin-literal-name-len-local', PK, "        filename = self.filename.encode('utf-8')\n        _bytes += bytearray([len(filename)])\n        _bytes += filename",
+  "        name_octets = self.filename.encode('utf-8')\n        name_len = len(name_octets)\n        _bytes += self.int_to_bytes(name_len, 1) + name_octets")
+T('C08', 'twin-rsa-parse-locals', FL, '    def parse(self, packet):\n        self.n = MPI(packet)\n        self.e = MPI(packet)\n\n\nclass DSAPub',
+  '    def parse(self, packet):\n        n = MPI(packet)\n        e = MPI(packet)\n        self.n, self.e = n, e\n\n\nclass DSAPub')
+T('C08', 'twin-pubkey-restructured', PK, '        pk = PubKeyV4() if not isinstance(self, PrivSubKeyV4) else PubSubKeyV4()\n        pk.created = self.created\n        pk.pkalg = self.pkalg\n\n        # copy over MPIs\n        for pm in self.keymaterial.__pubfields__:\n            setattr(pk.keymaterial, pm, copy.copy(getattr(self.keymaterial, pm)))\n\n        if self.pkalg in {PubKeyAlgorithm.ECDSA, PubKeyAlgorithm.EdDSA}:\n            pk.keymaterial.oid = self.keymaterial.oid\n\n        if self.pkalg == PubKeyAlgorithm.ECDH:\n            pk.keymaterial.oid = self.keymaterial.oid\n            pk.keymaterial.kdf = copy.copy(self.keymaterial.kdf)\n\n        pk.update_hlen()\n        return pk',
+  '        if isinstance(self, PrivSubKeyV4):\n            pub = PubSubKeyV4()\n        else:\n            pub = PubKeyV4()\n        pub.created = self.created\n        pub.pkalg = self.pkalg\n\n        secret_km = self.keymaterial\n        public_km = pub.keymaterial\n\n        for field in secret_km.__pubfields__:\n            setattr(public_km, field, copy.copy(getattr(secret_km, field)))\n\n        if self.pkalg in {PubKeyAlgorithm.ECDSA, PubKeyAlgorithm.EdDSA, PubKeyAlgorithm.ECDH}:\n            public_km.oid = secret_km.oid\n\n        if self.pkalg == PubKeyAlgorithm.ECDH:\n            public_km.kdf = copy.copy(secret_km.kdf)\n\n        pub.update_hlen()\n        return pub')
+T('C08', 'twin-dispatch-get-and-helper', TY, '            ncls = None\n            if (rcls, header.typeid) in MetaDispatchable._registry:\n                ncls = MetaDispatchable._registry[(rcls, header.typeid)]\n\n                if ncls.__ver__ == 0:\n                    if header.__class__ != ncls.__headercls__:\n                        nh = ncls.__headercls__()\n                        nh.__dict__.update(header.__dict__)\n                        try:\n                            nh.parse(packet)\n\n                        except Exception as ex:\n                            raise PGPError(str(ex)) from ex\n\n                        header = nh\n\n                    if (rcls, header.typeid, header.version) in MetaDispatchable._registry:\n                        ncls = MetaDispatchable._registry[(rcls, header.typeid, header.version)]\n\n                    else:  # pragma: no cover\n                        ncls = None\n\n            if ncls is None:\n                ncls = MetaDispatchable._registry[(rcls, None)]\n',
+  '            registry = MetaDispatchable._registry\n\n            ncls = registry.get((rcls, header.typeid))\n            if ncls is not None and ncls.__ver__ == 0:\n                header = MetaDispatchable._versioned_header(header, ncls, packet)\n                ncls = registry.get((rcls, header.typeid, header.version))\n\n            if ncls is None:\n                ncls = registry[(rcls, None)]\n', more=[(TY, '    def __call__(cls, packet=None):  # NOQA\n', '    @staticmethod\n    def _versioned_header(header, ncls, packet):\n        if header.__class__ != ncls.__headercls__:\n            nh = ncls.__headercls__()\n            nh.__dict__.update(header.__dict__)\n            try:\n                nh.parse(packet)\n\n            except Exception as ex:\n                raise PGPError(str(ex)) from ex\n\n            return nh\n\n        return header\n\n    def __call__(cls, packet=None):  # NOQA\n')])
+T('C08', 'twin-header-first-octet-once', PT, '        self._lenfmt = ((packet[0] & 0x40) >> 6)\n        self.tag = packet[0]\n        if self._lenfmt == 0:\n            self.llen = (packet[0] & 0x03)\n        del packet[0]\n\n        if (self._lenfmt == 0 and self.llen > 0) or self._lenfmt == 1:\n            self.length = packet\n\n        else:\n            # indeterminate packet length\n            self.length = len(packet)\n',
+  '        first_octet = packet[0]\n        self._lenfmt = ((first_octet & 0x40) >> 6)\n        self.tag = first_octet\n        if self._lenfmt == 0:\n            self.llen = (first_octet & 0x03)\n        del packet[0]\n\n        has_length_field = self._lenfmt == 1 or (self._lenfmt == 0 and self.llen > 0)\n        if not has_length_field:\n            # indeterminate packet length\n            self.length = len(packet)\n\n        else:\n            self.length = packet\n')
+T('C08', 'twin-pkesk-pkalg-get', PK, '        ct = _c.get(self._pkalg, None)\n        self.ct = ct() if ct is not None else ct\n',
+  '        ctcls = _c.get(self._pkalg)\n        if ctcls is None:\n            self.ct = None\n\n        else:\n            self.ct = ctcls()\n', more=[(PK, "        _bytes += self.ct.__bytearray__() if self.ct is not None else b'\\x00' * (self.header.length - 10)\n", "        if self.ct is not None:\n            _bytes += self.ct.__bytearray__()\n\n        else:\n            _bytes += b'\\x00' * (self.header.length - 10)\n")])
+T('C08', 'twin-hashed-area-peek-spelling', FL, '        hl = self.bytes_to_int(packet[:2])\n        hashed_raw = packet[:2 + hl]\n        del packet[:2]\n',
+  '        count_octets = packet[:2]\n        hl = self.bytes_to_int(count_octets)\n        area_end = hl + 2\n        hashed_raw = packet[:area_end]\n        del packet[:2]\n')
+T('C08', 'twin-sigv4-fixed-part-tuple', PK, '        self.sigtype = packet[0]\n        del packet[0]\n\n        self.pubalg = packet[0]\n        del packet[0]\n\n        self.halg = packet[0]\n        del packet[0]\n\n        self.subpackets.parse(packet)\n\n        self.hash2 = packet[:2]\n        del packet[:2]\n\n        self.signature.parse(packet)\n',
+  '        sigtype, pubalg, halg = packet[0], packet[1], packet[2]\n        del packet[:3]\n        self.sigtype = sigtype\n        self.pubalg = pubalg\n        self.halg = halg\n\n        sp = self.subpackets\n        sp.parse(packet)\n\n        left16 = packet[:2]\n        del packet[:2]\n        self.hash2 = left16\n\n        self.signature.parse(packet)\n')
+T('C08', 'twin-pubkey-fixed-part-local-body', PK, '        self.created = packet[:4]\n        del packet[:4]\n\n        self.pkalg = packet[0]\n        del packet[0]\n\n        # bound keymaterial to the remaining length of the packet\n        pend = self.header.length - 6\n        self.keymaterial.parse(packet[:pend])\n        del packet[:pend]\n',
+  '        self.created = packet[:4]\n        self.pkalg = packet[4]\n        del packet[:5]\n\n        fixed = 1 + 4 + 1\n        body = packet[:self.header.length - fixed]\n        self.keymaterial.parse(body)\n        del packet[:self.header.length - fixed]\n')
+T('C08', 'twin-pubkey-writer-one-expression', PK, '        _bytes += self.int_to_bytes(calendar.timegm(self.created.utctimetuple()), 4)\n        _bytes += self.int_to_bytes(self.pkalg)\n        _bytes += self.keymaterial.__bytearray__()\n        return _bytes\n\n    def __copy__(self):\n        pk = self.__class__()',
+  '        stamp = calendar.timegm(self.created.utctimetuple())\n        return _bytes + self.int_to_bytes(stamp, 4) + bytearray([self.pkalg]) + self.keymaterial.__bytearray__()\n\n    def __copy__(self):\n        pk = self.__class__()')
+T('C08', 'twin-signer-hex-method', PK, "        self._signer = binascii.hexlify(val).upper().decode('latin-1')",
+  '        self._signer = val.hex().upper()')
+T('C08', 'twin-signer-hex-fromhex', PK, "        self._signer = binascii.hexlify(val).upper().decode('latin-1')",
+  '        self._signer = val.hex().upper()', more=[(PK, '        _bytes += binascii.unhexlify(self.signer.encode("latin-1"))', '        _bytes += bytearray.fromhex(self.signer)')])
+T('C08', 'twin-skesk-remainder-locals', PK, '        ctend = self.header.length - len(self.s2k)\n        self.ct = packet[:ctend]\n        del packet[:ctend]\n',
+  '        s2k_len = len(self.s2k)\n        total = self.header.length\n        self.ct = packet[:total - s2k_len]\n        del packet[:total - s2k_len]\n')
+T('C08', 'twin-elg-alias-guard-clause', FL, '        if not self.s2k:\n            self.x = MPI(packet)\n\n            if self.s2k.usage == 0:\n                self.chksum = packet[:2]\n                del packet[:2]\n\n        else:\n            self.encbytes = packet\n\n    def decrypt_keyblob(self, passphrase):\n        kb = super(ElGPriv, self).decrypt_keyblob(passphrase)',
+  '        if self.s2k:\n            self.encbytes = packet\n            return\n\n        self.x = MPI(packet)\n\n        if self.s2k.usage == 0:\n            cks = packet[:2]\n            del packet[:2]\n            self.chksum = cks\n\n    def decrypt_keyblob(self, passphrase):\n        kb = super(ElGPriv, self).decrypt_keyblob(passphrase)')
+T('C08', 'twin-literal-writer-append-extend', PK, '        _bytes += bytearray([len(filename)])\n        _bytes += filename',
+  '        _bytes.append(len(filename))\n        _bytes.extend(filename)')
+T('C08', 'twin-trust-two-targets-reordered', PK, '        t = self.bytes_to_int(packet[:2])\n        del packet[:2]\n\n        self.trustlevel = t\n        self.trustflags = t',
+  '        raw = packet[:2]\n        del packet[:2]\n        value = self.bytes_to_int(raw)\n\n        self.trustflags = value\n        self.trustlevel = value')
+T('C08', 'twin-onepass-pop-reads', PK, '        self.sigtype = packet[0]\n        del packet[0]\n\n        self.halg = packet[0]\n        del packet[0]\n\n        self.pubalg = packet[0]\n        del packet[0]\n\n        self.signer = packet[:8]\n        del packet[:8]\n\n        self.nested = (packet[0] == 1)\n        del packet[0]',
+  '        self.sigtype = packet.pop(0)\n        self.halg = packet.pop(0)\n        self.pubalg = packet.pop(0)\n\n        self.signer = packet[:8]\n        del packet[:8]\n\n        self.nested = (packet.pop(0) == 1)')
+T('C08', 'twin-onepass-setattr-loop', PK, '        self.sigtype = packet[0]\n        del packet[0]\n\n        self.halg = packet[0]\n        del packet[0]\n\n        self.pubalg = packet[0]\n        del packet[0]\n\n        self.signer = packet[:8]\n        del packet[:8]\n\n        self.nested = (packet[0] == 1)\n        del packet[0]',
+  "        for attr in ('sigtype', 'halg', 'pubalg'):\n            setattr(self, attr, packet[0])\n            del packet[0]\n\n        self.signer = packet[:8]\n        del packet[:8]\n\n        self.nested = (packet[0] == 1)\n        del packet[0]")
+T('C08', 'twin-uri-bytes-constructor', SS, '        _bytes += self.uri.encode()\n        return _bytes',
+  "        _bytes += bytes(self.uri, 'utf-8')\n        return _bytes")
+T('C08', 'twin-filename-str-constructor', PK, '        self.filename = packet[:fnl].decode()\n',
+  "        self.filename = str(packet[:fnl], 'utf-8')\n")
+T('C08', 'twin-literal-empty-early-return', PK, '        self.mtime = packet[:4]\n        del packet[:4]\n\n        self._contents',
+  '        self.mtime = packet[:4]\n        del packet[:4]\n\n        if self.header.length - (6 + fnl) == 0:\n            self._contents = bytearray()\n            return\n\n        self._contents')
+T('C08', 'twin-notation-lengths-to-bytes', SS, '        _bytes += self.int_to_bytes(len(name), 2)\n        _bytes += self.int_to_bytes(len(value), 2)\n',
+  "        _bytes += len(name).to_bytes(2, 'big')\n        _bytes += len(value).to_bytes(2, 'big')\n")
+T('C08', 'twin-seipd-length-locals', PK, '        self.ct = packet[:self.header.length - 1]\n        del packet[:self.header.length - 1]\n\n    def encrypt(self, key, alg, data):',
+  '        hlen = self.header.length\n        body = hlen - 1\n        self.ct = packet[:body]\n        del packet[:body]\n\n    def encrypt(self, key, alg, data):')
+T('C08', 'twin-notation-offset-reads', SS, '        self.flags = packet[:1]\n        del packet[:4]\n        nlen = self.bytes_to_int(packet[:2])\n        del packet[:2]\n        vlen = self.bytes_to_int(packet[:2])\n        del packet[:2]\n',
+  '        self.flags = packet[:1]\n        nlen = self.bytes_to_int(packet[4:6])\n        vlen = self.bytes_to_int(packet[6:8])\n        del packet[:8]\n')
+T('C08', 'twin-hashed-area-count-from-bytes', FL, '        hl = self.bytes_to_int(packet[:2])\n        hashed_raw = packet[:2 + hl]\n        del packet[:2]\n',
+  "        hl = int.from_bytes(packet[:2], 'big')\n        hashed_raw = packet[:2 + hl]\n        del packet[:2]\n")
+T('C08', 'twin-dispatch-factory-staticmethod', TY, '    def __call__(cls, packet=None):  # NOQA\n        def _makeobj(cls):\n            obj = object.__new__(cls)\n            obj.__init__()\n            return obj\n\n',
+  '    @staticmethod\n    def _makeobj(cls):\n        obj = object.__new__(cls)\n        obj.__init__()\n        return obj\n\n    def __call__(cls, packet=None):  # NOQA\n', more=[(TY, '            obj = _makeobj(ncls)\n', '            obj = MetaDispatchable._makeobj(ncls)\n'), (TY, '            obj = _makeobj(cls)\n', '            obj = MetaDispatchable._makeobj(cls)\n')])
+# --- end C08 hardening
 M('C09', 'old-tag-shift', PT, "        tag |= (self.tag) if self._lenfmt else ((self.tag << 2) | {1: 0, 2: 1, 4: 2, 0: 3}[self.llen])", "        tag |= (self.tag) if self._lenfmt else ((self.tag << 1) | {1: 0, 2: 1, 4: 2, 0: 3}[self.llen])", 'C09.8')
 M('C09', 'tag-mask-1f', PT, "        _tag = (val & 0x3F) if self._lenfmt else ((val & 0x3C) >> 2)", "        _tag = (val & 0x1F) if self._lenfmt else ((val & 0x3C) >> 2)", 'C09.8')
 M('C09', 'partial-del-one', TY, "                    del b[total:total + size]", "                    del b[total:total + 1]", 'C09.8')
@@ -1821,3 +2019,225 @@ T('C18', 'twin-pubkey-class-via-local', PK, "        pk = PubKeyV4() if not isin
 M('C18', 'pubkey-class-via-local-keeps-private-subkey', PK, "        pk = PubKeyV4() if not isinstance(self, PrivSubKeyV4) else PubSubKeyV4()\n", "        klass = PrivSubKeyV4 if isinstance(self, PrivSubKeyV4) else PubKeyV4\n        pk = klass()\n", 'C18.6')
 T('C18', 'twin-keyid-of-plain-text', TY, "        return self[-16:]", "        return str(self)[-16:]",
   more=[(PGP, "        if self._key:\n            return self._key.fingerprint\n", "        return self._key.fingerprint if self._key else None\n")])
+# =============================================================================================== C14 / C20 hardening (semantic rules)
+# ---- C14.1 export grammar and filters: loops with guard clauses / nested ifs / chunk lists are the same term as the comprehension
+EXPORT = ("        _bytes = bytearray()\n        # us\n        _bytes += self._key.__bytearray__()\n        # our signatures; ignore embedded signatures\n"
+          "        for sig in iter(s for s in self._signatures if not s.embedded and s.exportable):\n            _bytes += sig.__bytearray__()\n"
+          "        # one or more User IDs, followed by their signatures\n        for uid in self._uids:\n            _bytes += uid._uid.__bytearray__()\n"
+          "            for s in [s for s in uid._signatures if s.exportable]:\n                _bytes += s.__bytearray__()\n"
+          "        # subkeys\n        for sk in self._children.values():\n            _bytes += sk.__bytearray__()\n\n        return _bytes\n")
+KEYSIGS = "        for sig in iter(s for s in self._signatures if not s.embedded and s.exportable):\n            _bytes += sig.__bytearray__()\n"
+UIDSIGS = "            for s in [s for s in uid._signatures if s.exportable]:\n                _bytes += s.__bytearray__()\n"
+T('C14', 'twin-export-chunks-joined', PGP, EXPORT,
+  "        chunks = []\n        chunks.append(self._key.__bytearray__())\n        for sig in self._signatures:\n            if sig.embedded or not sig.exportable:\n                continue\n"
+  "            chunks.append(sig.__bytearray__())\n        for uid in self._uids:\n            chunks.append(uid._uid.__bytearray__())\n"
+  "            exportable = [s for s in uid._signatures if s.exportable]\n            chunks.extend(s.__bytearray__() for s in exportable)\n"
+  "        chunks.extend(sk.__bytearray__() for sk in self._children.values())\n\n        return bytearray().join(chunks)\n")
+T('C14', 'twin-export-guard-clauses', PGP, KEYSIGS,
+  "        for keysig in self._signatures:\n            if keysig.embedded:\n                continue\n            if not keysig.exportable:\n                continue\n            _bytes += keysig.__bytearray__()\n")
+T('C14', 'twin-export-nested-if', PGP, KEYSIGS,
+  "        for keysig in self._signatures:\n            if keysig.exportable:\n                if not keysig.embedded:\n                    _bytes += keysig.__bytearray__()\n")
+T('C14', 'twin-export-demorgan', PGP, KEYSIGS,
+  "        for keysig in self._signatures:\n            if not (keysig.embedded or not keysig.exportable):\n                _bytes += keysig.__bytearray__()\n")
+T('C14', 'twin-export-uidsigs-plain-loop', PGP, UIDSIGS,
+  "            for certification in uid._signatures:\n                if not certification.exportable:\n                    continue\n                _bytes += certification.__bytearray__()\n")
+T('C14', 'twin-export-subkeys-items', PGP, "        for sk in self._children.values():\n            _bytes += sk.__bytearray__()\n\n        return _bytes",
+  "        for _keyid, subkey in self._children.items():\n            _bytes += subkey.__bytearray__()\n\n        return _bytes")
+M('C14', 'export-or-filter', PGP, KEYSIGS, "        for sig in iter(s for s in self._signatures if not s.embedded or s.exportable):\n            _bytes += sig.__bytearray__()\n", 'C14.1')
+M('C14', 'export-guard-wrong-polarity', PGP, KEYSIGS,
+  "        for sig in self._signatures:\n            if sig.embedded or sig.exportable:\n                continue\n            _bytes += sig.__bytearray__()\n", 'C14.1')
+M('C14', 'export-guard-exportable-dropped', PGP, KEYSIGS,
+  "        for sig in self._signatures:\n            if sig.embedded:\n                continue\n            _bytes += sig.__bytearray__()\n", 'C14.1')
+M('C14', 'export-uid-gets-key-sigs', PGP, UIDSIGS, "            for s in [s for s in self._signatures if s.exportable]:\n                _bytes += s.__bytearray__()\n", 'C14.1')
+M('C14', 'export-unsigned-uids-dropped', PGP, "        for uid in self._uids:\n            _bytes += uid._uid.__bytearray__()\n            for s in [s",
+  "        for uid in self._uids:\n            if not uid._signatures:\n                continue\n            _bytes += uid._uid.__bytearray__()\n            for s in [s", 'C14.1')
+M('C14', 'export-uid-sigs-expired-dropped', PGP, UIDSIGS, "            for s in [s for s in uid._signatures if s.exportable and not s.is_expired]:\n                _bytes += s.__bytearray__()\n", 'C14.1')
+# ---- C14.2
+EXPORTABLE = "        if 'ExportableCertification' in self._signature.subpackets:\n            return bool(next(iter(self._signature.subpackets['ExportableCertification'])))\n\n        return True\n"
+T('C14', 'twin-exportable-inverted-guard', PGP, EXPORTABLE,
+  "        subpackets = self._signature.subpackets\n        if 'ExportableCertification' not in subpackets:\n            return True\n\n        return bool(next(iter(subpackets['ExportableCertification'])))\n")
+T('C14', 'twin-exportable-conditional-expression', PGP, EXPORTABLE,
+  "        sp = self._signature.subpackets\n        return bool(next(iter(sp['ExportableCertification']))) if 'ExportableCertification' in sp else True\n")
+T('C14', 'twin-exportable-first-element', PGP, EXPORTABLE,
+  "        if 'ExportableCertification' in self._signature.subpackets:\n            return self._signature.subpackets['ExportableCertification'][0].bflag\n\n        return True\n")
+M('C14', 'exportable-inverted-default-false', PGP, EXPORTABLE,
+  "        subpackets = self._signature.subpackets\n        if 'ExportableCertification' not in subpackets:\n            return False\n\n        return bool(next(iter(subpackets['ExportableCertification'])))\n", 'C14.2')
+M('C14', 'exportable-flag-negated', PGP, EXPORTABLE,
+  "        if 'ExportableCertification' in self._signature.subpackets:\n            return not next(iter(self._signature.subpackets['ExportableCertification']))\n\n        return True\n", 'C14.2')
+M('C14', 'exportable-wrong-subpacket', PGP, EXPORTABLE,
+  "        if 'ExportableCertification' in self._signature.subpackets:\n            return bool(next(iter(self._signature.subpackets['Revocable'])))\n\n        return True\n", 'C14.2')
+T('C14', 'twin-boolean-param-rename', SS, "    def bflag_bytearray(self, val):\n        self.bflag = bool(self.bytes_to_int(val))", "    def bflag_bytearray(self, octets):\n        self.bflag = self.bytes_to_int(octets) != 0")
+M('C14', 'boolean-bool-setter-other-attr', SS, "    def bflag_bool(self, val):\n        self._bool = val", "    def bflag_bool(self, val):\n        self._bflag = val", 'C14.2')
+# ---- C14.3
+GROUPS = "            for group in iter(group for _, group in itertools.groupby(getpkt, key=pktgrouper()) if not _.endswith('Opaque')):\n                pkt = next(group)\n"
+ATTACH = "                [ operator.ior(pgpobj, PGPSignature() | sig) for sig in group if not isinstance(sig, Opaque) ]\n"
+TRUST = "        getpkt = filter(lambda p: p.header.tag != PacketTag.Trust, iter(functools.partial(_getpkt, data), None))\n"
+GROUPER = "                    if pkt.header.tag != PacketTag.Signature:\n                        self.last = '{:02X}_{:s}'.format(id(pkt), pkt.__class__.__name__)\n                    return self.last\n"
+FILING = ("                if isinstance(pgpobj, PGPKey):\n                    if pgpobj.is_primary:\n                        keys[(pgpobj.fingerprint.keyid, pgpobj.is_public)] = pgpobj\n\n"
+          "                    else:\n                        keys[next(reversed(keys))] |= pgpobj\n\n                elif isinstance(pgpobj, PGPUID):\n"
+          "                    # parent is likely the most recently parsed primary key\n                    keys[next(reversed(keys))] |= pgpobj\n\n"
+          "                else:  # pragma: no cover\n                    break\n")
+T('C14', 'twin-groups-plain-loop', PGP, GROUPS,
+  "            for groupname, group in itertools.groupby(getpkt, key=pktgrouper()):\n                if groupname.endswith('Opaque'):\n                    continue\n\n                pkt = next(group)\n")
+T('C14', 'twin-attach-plain-loop', PGP, ATTACH,
+  "                for sig in group:\n                    if isinstance(sig, Opaque):\n                        continue\n                    pgpobj |= PGPSignature() | sig\n")
+T('C14', 'twin-attach-guarded-loop', PGP, ATTACH,
+  "                for sigpkt in group:\n                    if not isinstance(sigpkt, Opaque):\n                        pgpobj |= PGPSignature() | sigpkt\n")
+T('C14', 'twin-attach-mapped-loop', PGP, ATTACH,
+  "                for pgpsig in (PGPSignature() | s for s in group if not isinstance(s, Opaque)):\n                    pgpobj |= pgpsig\n")
+T('C14', 'twin-trust-generator-expression', PGP, TRUST,
+  "        getpkt = (p for p in iter(functools.partial(_getpkt, data), None) if p.header.tag != PacketTag.Trust)\n")
+T('C14', 'twin-trust-not-eq', PGP, TRUST,
+  "        packets = iter(functools.partial(_getpkt, data), None)\n        getpkt = filter(lambda pkt: not pkt.header.tag == PacketTag.Trust, packets)\n")
+T('C14', 'twin-grouper-early-return', PGP, GROUPER,
+  "                    if pkt.header.tag == PacketTag.Signature:\n                        return self.last\n                    self.last = '{:02X}_{:s}'.format(id(pkt), pkt.__class__.__name__)\n                    return self.last\n")
+T('C14', 'twin-filing-merged-arms', PGP, FILING,
+  "                if isinstance(pgpobj, PGPKey) and pgpobj.is_primary:\n                    keys[(pgpobj.fingerprint.keyid, pgpobj.is_public)] = pgpobj\n\n"
+  "                elif isinstance(pgpobj, (PGPKey, PGPUID)):\n                    # parent is likely the most recently parsed primary key\n                    latest = next(reversed(keys))\n                    keys[latest] |= pgpobj\n\n"
+  "                else:  # pragma: no cover\n                    break\n")
+T('C14', 'twin-head-if-statement', PGP, "                    pgpobj = (self if self._key is None else PGPKey()) | pkt\n",
+  "                    if self._key is None:\n                        owner = self\n                    else:\n                        owner = PGPKey()\n                    pgpobj = owner | pkt\n")
+M('C14', 'attach-to-self', PGP, ATTACH, "                [ operator.ior(self, PGPSignature() | sig) for sig in group if not isinstance(sig, Opaque) ]\n", 'C14.3')
+M('C14', 'attach-loop-stops-at-opaque', PGP, ATTACH,
+  "                for sig in group:\n                    if isinstance(sig, Opaque):\n                        break\n                    pgpobj |= PGPSignature() | sig\n", 'C14.3')
+M('C14', 'attach-only-certifications', PGP, ATTACH,
+  "                for sig in group:\n                    if isinstance(sig, Opaque) or sig.sigtype == SignatureType.Timestamp:\n                        continue\n                    pgpobj |= PGPSignature() | sig\n", 'C14.3')
+M('C14', 'user-attribute-groups-skipped', PGP, GROUPS,
+  "            for group in iter(group for _, group in itertools.groupby(getpkt, key=pktgrouper()) if not _.endswith(('Opaque', 'UserAttribute'))):\n                pkt = next(group)\n", 'C14.3')
+M('C14', 'opaque-groups-kept', PGP, GROUPS,
+  "            for group in iter(group for _, group in itertools.groupby(getpkt, key=pktgrouper())):\n                pkt = next(group)\n", 'C14.3')
+M('C14', 'trust-filter-marker', PGP, TRUST, "        getpkt = filter(lambda p: p.header.tag != PacketTag.Marker, iter(functools.partial(_getpkt, data), None))\n", 'C14.3')
+M('C14', 'trust-filter-also-drops-attributes', PGP, TRUST,
+  "        getpkt = filter(lambda p: p.header.tag not in (PacketTag.Trust, PacketTag.UserAttribute), iter(functools.partial(_getpkt, data), None))\n", 'C14.3')
+M('C14', 'grouper-class-name-only', PGP, GROUPER,
+  "                    if pkt.header.tag != PacketTag.Signature:\n                        self.last = pkt.__class__.__name__\n                    return self.last\n", 'C14.3')
+M('C14', 'grouper-splits-on-trust', PGP, GROUPER,
+  "                    if pkt.header.tag not in (PacketTag.Signature, PacketTag.UserAttribute):\n                        self.last = '{:02X}_{:s}'.format(id(pkt), pkt.__class__.__name__)\n                    return self.last\n", 'C14.3')
+M('C14', 'subkey-to-first-key', PGP, "                    else:\n                        keys[next(reversed(keys))] |= pgpobj\n", "                    else:\n                        keys[next(iter(keys))] |= pgpobj\n", 'C14.3')
+M('C14', 'subkey-filed-as-key', PGP, "                    if pgpobj.is_primary:\n                        keys[(pgpobj.fingerprint.keyid, pgpobj.is_public)] = pgpobj\n\n                    else:\n                        keys[next(reversed(keys))] |= pgpobj\n",
+  "                    keys[(pgpobj.fingerprint.keyid, pgpobj.is_public)] = pgpobj\n", 'C14.3')
+# ---- C14.4
+KEYCOPY_SIGS = "        for sig in self._signatures:\n            if sig.embedded:\n                # embedded signatures don't need to be explicitly copied\n                continue\n\n            key |= copy.copy(sig)\n"
+T('C14', 'twin-copy-values-and-guard', PGP, "        for id, subkey in self._children.items():\n            key |= copy.copy(subkey)\n\n" + KEYCOPY_SIGS,
+  "        for subkey in self._children.values():\n            key |= copy.copy(subkey)\n\n        for sig in self._signatures:\n            if not sig.embedded:\n                key |= copy.copy(sig)\n")
+T('C14', 'twin-copy-mapped', PGP, "        for uid in self._uids:\n            key |= copy.copy(uid)\n", "        for uidcopy in [copy.copy(u) for u in self._uids]:\n            key |= uidcopy\n")
+T('C14', 'twin-copy-renamed-result', PGP, "        key = super(PGPKey, self).__copy__()\n        key._key = copy.copy(self._key)\n\n        for uid in self._uids:\n            key |= copy.copy(uid)\n\n        for id, subkey in self._children.items():\n            key |= copy.copy(subkey)\n\n" + KEYCOPY_SIGS + "\n        return key\n",
+  "        dup = super().__copy__()\n        keypkt = copy.copy(self._key)\n        dup._key = keypkt\n\n        for uid in self._uids:\n            dup |= copy.copy(uid)\n\n        for subkey in self._children.values():\n            dup |= copy.copy(subkey)\n\n"
+  "        for sig in (s for s in self._signatures if not s.embedded):\n            dup |= copy.copy(sig)\n\n        return dup\n")
+M('C14', 'copy-skips-nonexportable', PGP, KEYCOPY_SIGS, "        for sig in self._signatures:\n            if sig.embedded or not sig.exportable:\n                continue\n\n            key |= copy.copy(sig)\n", 'C14.4')
+M('C14', 'copy-shares-signatures', PGP, KEYCOPY_SIGS, "        for sig in self._signatures:\n            if sig.embedded:\n                continue\n\n            key |= sig\n", 'C14.4')
+M('C14', 'copy-only-self-certified-uids', PGP, "        for uid in self._uids:\n            key |= copy.copy(uid)\n", "        for uid in self._uids:\n            if uid.selfsig is None:\n                continue\n            key |= copy.copy(uid)\n", 'C14.4')
+M('C14', 'uid-copy-shares-packet', PGP, "        uid |= copy.copy(self._uid)\n        for sig in self._signatures:", "        uid |= self._uid\n        for sig in self._signatures:", 'C14.4')
+M('C14', 'sig-copy-shares-packet', PGP, "        sig |= copy.copy(self._signature)\n        return sig", "        sig |= self._signature\n        return sig", 'C14.4')
+T('C14', 'twin-uid-copy-renamed', PGP, "        uid = PGPUID()\n        uid |= copy.copy(self._uid)\n        for sig in self._signatures:\n            uid |= copy.copy(sig)\n        return uid",
+  "        dup = PGPUID()\n        pkt = copy.copy(self._uid)\n        dup |= pkt\n        for certification in self._signatures:\n            dup |= copy.copy(certification)\n        return dup")
+# ---- C14.5
+EMBED = ("            if other.type == SignatureType.Subkey_Binding:\n                for es in iter(pkb for pkb in other._signature.subpackets['EmbeddedSignature']):\n"
+         "                    esig = PGPSignature() | es\n                    esig._parent = other\n                    self._signatures.insort(esig)\n")
+T('C14', 'twin-embedded-helper-method', PGP, "            self._signatures.insort(other)\n\n            # if this is a subkey binding signature that has embedded primary key binding signatures, add them to parent\n" + EMBED,
+  "            self._signatures.insort(other)\n            self._attach_embedded_signatures(other)\n",
+  more=[(PGP, "    def __or__(self, other, from_sib=False):\n        if isinstance(other, Key) and self._key is None:",
+         "    def _attach_embedded_signatures(self, binding):\n        if binding.type != SignatureType.Subkey_Binding:\n            return\n\n"
+         "        for sigpkt in binding._signature.subpackets['EmbeddedSignature']:\n            embedded = PGPSignature() | sigpkt\n            embedded._parent = binding\n            self._signatures.insort(embedded)\n\n"
+         "    def __or__(self, other, from_sib=False):\n        if isinstance(other, Key) and self._key is None:")])
+T('C14', 'twin-embedded-plain-loop', PGP, EMBED,
+  "            if SignatureType.Subkey_Binding == other.type:\n                for crosssig in other._signature.subpackets['EmbeddedSignature']:\n"
+  "                    pkb = PGPSignature() | crosssig\n                    self._signatures.insort(pkb)\n                    pkb._parent = other\n")
+T('C14', 'twin-uid-or-merged-arms', PGP, "        if isinstance(other, UserID) and self._uid is None:\n            self._uid = other\n            return self\n\n        if isinstance(other, UserAttribute) and self._uid is None:\n            self._uid = other\n            return self\n",
+  "        if isinstance(other, (UserID, UserAttribute)) and self._uid is None:\n            self._uid = other\n            return self\n")
+M('C14', 'embedded-parent-is-key', PGP, "                    esig._parent = other\n", "                    esig._parent = self\n", 'C14.5')
+M('C14', 'embedded-not-inserted', PGP, "                    esig._parent = other\n                    self._signatures.insort(esig)\n", "                    esig._parent = other\n", 'C14.5')
+M('C14', 'embedded-on-key-revocation', PGP, "            if other.type == SignatureType.Subkey_Binding:\n                for es in iter(pkb", "            if other.type == SignatureType.SubkeyRevocation:\n                for es in iter(pkb", 'C14.5')
+M('C14', 'embedded-first-only', PGP, "                for es in iter(pkb for pkb in other._signature.subpackets['EmbeddedSignature']):", "                for es in other._signature.subpackets['EmbeddedSignature'][:1]:", 'C14.5')
+M('C14', 'subkey-under-parent-keyid', PGP, "            self._children[other.fingerprint.keyid] = other\n", "            self._children[self.fingerprint.keyid] = other\n", 'C14.5')
+M('C14', 'uid-not-linked', PGP, "            other._parent = weakref.ref(self)\n            self._uids.insort(other)\n", "            self._uids.insort(other)\n", 'C14.5')
+M('C14', 'uid-signature-appended-left', PGP, "        if isinstance(other, PGPSignature):\n            self._signatures.insort(other)\n            if self.parent is not None and self in self.parent._uids:", "        if isinstance(other, PGPSignature):\n            self._signatures.appendleft(other)\n            if self.parent is not None and self in self.parent._uids:", 'C14.5')
+
+# ---- C20
+OPSLOOP = ("            for sig in reversed(self._signatures):\n                ops = sig.make_onepass()\n                # only the last one-pass packet, the one directly before the signed data, is flagged\n"
+           "                if sig is self._signatures[0]:\n                    ops.nested = True\n                yield ops\n")
+T('C20', 'twin-iter-helper-generator', PGP, "    def __iter__(self):\n        if self.type == 'cleartext':\n            for sig in self._signatures:\n                yield sig\n\n        elif self.is_encrypted:\n            for sig in self._signatures:\n                yield sig\n            for pkt in self._sessionkeys:\n                yield pkt\n            yield self.message\n\n        else:\n            ##TODO: is it worth coming up with a way of disabling one-pass signing?\n" + OPSLOOP +
+  "\n            yield self._message\n            if self._mdc is not None:  # pragma: no cover\n                yield self._mdc\n\n            for sig in self._signatures:\n                yield sig\n",
+  "    def _onepass_headers(self):\n        for sig in reversed(self._signatures):\n            ops = sig.make_onepass()\n            if sig is self._signatures[0]:\n                ops.nested = True\n            yield ops\n\n"
+  "    def __iter__(self):\n        if self.type == 'cleartext':\n            for sig in self._signatures:\n                yield sig\n            return\n\n        if self.is_encrypted:\n            for sig in self._signatures:\n                yield sig\n            for pkt in self._sessionkeys:\n                yield pkt\n            yield self.message\n            return\n\n"
+  "        for ops in self._onepass_headers():\n            yield ops\n\n        yield self._message\n        if self._mdc is not None:  # pragma: no cover\n            yield self._mdc\n\n        for sig in self._signatures:\n            yield sig\n")
+T('C20', 'twin-flag-operands-swapped', PGP, OPSLOOP,
+  "            oldest = self._signatures[0]\n            for signature in reversed(self._signatures):\n                header = signature.make_onepass()\n                if oldest is signature:\n                    header.nested = True\n                yield header\n")
+T('C20', 'twin-flag-assigned-condition', PGP, OPSLOOP,
+  "            for sig in reversed(self._signatures):\n                ops = sig.make_onepass()\n                ops.nested = sig is self._signatures[0]\n                yield ops\n")
+T('C20', 'twin-flag-not-last-else', PGP, OPSLOOP,
+  "            for sig in reversed(self._signatures):\n                ops = sig.make_onepass()\n                if sig is not self._signatures[0]:\n                    pass\n                else:\n                    ops.nested = True\n                yield ops\n")
+M('C20', 'flag-on-creation-time-tie', PGP, OPSLOOP.split('                if sig')[0] + "                if sig.created == self._signatures[0].created:\n                    ops.nested = True\n                yield ops\n" if False else
+  "                if sig is self._signatures[0]:\n                    ops.nested = True\n                yield ops", "                if sig.created == self._signatures[0].created:\n                    ops.nested = True\n                yield ops", 'C20.4')
+M('C20', 'flag-set-on-other-packet', PGP, "                if sig is self._signatures[0]:\n                    ops.nested = True\n                yield ops", "                if sig is self._signatures[0]:\n                    sig.make_onepass().nested = True\n                yield ops", 'C20.4')
+M('C20', 'flag-assigned-negated', PGP, OPSLOOP,
+  "            for sig in reversed(self._signatures):\n                ops = sig.make_onepass()\n                ops.nested = sig is not self._signatures[0]\n                yield ops\n", 'C20.4')
+M('C20', 'ops-from-first-signature', PGP, "            for sig in reversed(self._signatures):\n                ops = sig.make_onepass()\n", "            for sig in reversed(self._signatures):\n                ops = self._signatures[0].make_onepass()\n", 'C20')
+M('C20', 'nested-default-true', PK, "        self._signer = b'\\x00' * 8\n        self.nested = False", "        self._signer = b'\\x00' * 8\n        self.nested = True", 'C20.4')
+M('C20', 'onepass-sigtype-constant', PGP, "        onepass.sigtype = self.type\n", "        onepass.sigtype = SignatureType.BinaryDocument\n", 'C20.3')
+T('C20', 'twin-onepass-renamed', PGP, "        onepass = OnePassSignatureV3()\n        onepass.sigtype = self.type\n        onepass.halg = self.hash_algorithm\n        onepass.pubalg = self.key_algorithm\n        onepass.signer = self.signer\n        onepass.update_hlen()\n        return onepass",
+  "        ops = OnePassSignatureV3()\n        keyid = self.signer\n        ops.signer = keyid\n        ops.pubalg = self.key_algorithm\n        ops.halg = self.hash_algorithm\n        ops.sigtype = self.type\n        ops.update_hlen()\n        return ops")
+MSGBYTES = "        _bytes = bytearray()\n        for pkt in self:\n            _bytes += pkt.__bytearray__()\n        return _bytes\n\n    def __str__(self):\n        if self.type == 'cleartext':"
+T('C20', 'twin-message-bytes-join', PGP, MSGBYTES, "        return bytearray().join(pkt.__bytearray__() for pkt in self)\n\n    def __str__(self):\n        if self.type == 'cleartext':")
+T('C20', 'twin-compressed-bytes-join', PK, "        _pb = bytearray()\n        for pkt in self.packets:\n            _pb += pkt.__bytearray__()\n        _bytes += self.calg.compress(bytes(_pb))",
+  "        _pb = b''.join(pkt.__bytearray__() for pkt in self.packets)\n        _bytes += self.calg.compress(_pb)")
+T('C20', 'twin-ops-bytes-one-append', PK, "        _bytes += bytearray([self.sigtype])\n        _bytes += bytearray([self.halg])\n        _bytes += bytearray([self.pubalg])\n        _bytes += binascii.unhexlify(self.signer.encode(\"latin-1\"))\n        _bytes += bytearray([int(self.nested)])",
+  "        _bytes += bytearray([self.sigtype, self.halg, self.pubalg])\n        _bytes += binascii.unhexlify(self.signer.encode(\"latin-1\")) + bytearray([int(self.nested)])")
+T('C20', 'twin-compressed-object-renamed', PGP, "            comp = CompressedData()\n            comp.calg = self._compression\n            comp.packets = [pkt for pkt in self]\n            comp.update_hlen()\n            return comp.__bytearray__()",
+  "            container = CompressedData()\n            container.packets = list(self)\n            container.calg = self._compression\n            container.update_hlen()\n            return container.__bytearray__()")
+M('C20', 'compressed-hlen-before-packets', PGP, "            comp.packets = [pkt for pkt in self]\n            comp.update_hlen()\n", "            comp.update_hlen()\n            comp.packets = [pkt for pkt in self]\n", 'C20.5')
+M('C20', 'message-bytes-skip-mdc', PGP, MSGBYTES, "        return bytearray().join(pkt.__bytearray__() for pkt in self if pkt is not self._mdc)\n\n    def __str__(self):\n        if self.type == 'cleartext':", 'C20.5')
+T('C20', 'twin-is-compressed-if-form', PGP, "        return self._compression != CompressionAlgorithm.Uncompressed", "        if self._compression == CompressionAlgorithm.Uncompressed:\n            return False\n        return True")
+M('C20', 'is-compressed-zip-only', PGP, "        return self._compression != CompressionAlgorithm.Uncompressed", "        return self._compression == CompressionAlgorithm.ZIP", 'C20.5')
+ORCOMP = "            self._compression = other.calg\n            for pkt in other.packets:\n                self |= pkt\n            return self\n"
+T('C20', 'twin-or-compressed-renamed', PGP, ORCOMP, "            algorithm = other.calg\n            for inner in other.packets:\n                self |= inner\n            self._compression = algorithm\n            return self\n")
+M('C20', 'or-compressed-first-packet-only', PGP, ORCOMP, "            self._compression = other.calg\n            for pkt in other.packets[:1]:\n                self |= pkt\n            return self\n", 'C20.5')
+M('C20', 'or-compressed-skips-signatures', PGP, ORCOMP, "            self._compression = other.calg\n            for pkt in other.packets:\n                if isinstance(pkt, Signature):\n                    continue\n                self |= pkt\n            return self\n", 'C20.5')
+M('C20', 'compressed-packet-first-only', PK, "        for pkt in self.packets:\n            _pb += pkt.__bytearray__()\n        _bytes += self.calg.compress(bytes(_pb))", "        for pkt in self.packets[:1]:\n            _pb += pkt.__bytearray__()\n        _bytes += self.calg.compress(bytes(_pb))", 'C20.5')
+LITTAIL = "        self._contents = packet[:self.header.length - (6 + fnl)]\n        del packet[:self.header.length - (6 + fnl)]\n"
+T('C20', 'twin-literal-length-temporary', PK, LITTAIL, "        clen = self.header.length - (6 + fnl)\n        self._contents = packet[:clen]\n        del packet[:clen]\n")
+T('C20', 'twin-literal-length-respelled', PK, "        fnl = packet[0]\n        del packet[0]\n\n        self.filename = packet[:fnl].decode()\n        del packet[:fnl]\n\n        self.mtime = packet[:4]\n        del packet[:4]\n\n" + LITTAIL,
+  "        namelen = packet[0]\n        del packet[0]\n\n        self.filename = packet[:namelen].decode('utf-8')\n        del packet[:namelen]\n\n        self.mtime = packet[:4]\n        del packet[:4]\n\n"
+  "        remaining = self.header.length - namelen - 6\n        self._contents = packet[:remaining]\n        del packet[:remaining]\n")
+M('C20', 'literal-contents-len-5', PK, LITTAIL, "        self._contents = packet[:self.header.length - (5 + fnl)]\n        del packet[:self.header.length - (5 + fnl)]\n", 'C20.6')
+M('C20', 'literal-reader-latin1', PK, "        self.filename = packet[:fnl].decode()\n", "        self.filename = packet[:fnl].decode('latin-1')\n", 'C20.6')
+M('C20', 'literal-time-before-name', PK, "        self.filename = packet[:fnl].decode()\n        del packet[:fnl]\n\n        self.mtime = packet[:4]\n        del packet[:4]\n", "        self.mtime = packet[:4]\n        del packet[:4]\n\n        self.filename = packet[:fnl].decode()\n        del packet[:fnl]\n", 'C20.6')
+M('C20', 'ops-reader-pubalg-before-halg', PK, "        self.halg = packet[0]\n        del packet[0]\n\n        self.pubalg = packet[0]\n        del packet[0]\n\n        self.signer = packet[:8]", "        self.pubalg = packet[0]\n        del packet[0]\n\n        self.halg = packet[0]\n        del packet[0]\n\n        self.signer = packet[:8]", 'C20.6')
+M('C20', 'ops-reader-flag-inverted', PK, "        self.nested = (packet[0] == 1)\n", "        self.nested = (packet[0] == 0)\n", 'C20.6')
+T('C20', 'twin-ops-reader-renamed-buffer', PK, "    def parse(self, packet):\n        super(OnePassSignatureV3, self).parse(packet)\n        self.sigtype = packet[0]\n        del packet[0]\n\n        self.halg = packet[0]\n        del packet[0]\n\n        self.pubalg = packet[0]\n        del packet[0]\n\n        self.signer = packet[:8]\n        del packet[:8]\n\n        self.nested = (packet[0] == 1)\n        del packet[0]\n",
+  "    def parse(self, buf):\n        super().parse(buf)\n        self.sigtype = buf[0]\n        del buf[0]\n\n        self.halg = buf[0]\n        del buf[0]\n\n        self.pubalg = buf[0]\n        del buf[0]\n\n        self.signer = buf[:8]\n        del buf[:8]\n\n        self.nested = buf[0] != 0\n        del buf[0]\n")
+NEWLIT = ("            lit = LiteralData()\n            lit._contents = bytearray(msg.text_to_bytes(message))\n            lit.filename = '_CONSOLE' if sensitive else os.path.basename(filename)\n"
+          "            lit.mtime = mtime\n            lit.format = format\n")
+T('C20', 'twin-new-literal-renamed', PGP, NEWLIT + "\n            # if cls.is_ascii(message):\n            #     lit.format = 't'\n\n            lit.update_hlen()\n\n            msg |= lit\n",
+  "            body = msg.text_to_bytes(message)\n            if sensitive:\n                litname = '_CONSOLE'\n            else:\n                litname = os.path.basename(filename)\n            literal = LiteralData()\n            literal._contents = bytearray(body)\n"
+  "            literal.filename = litname\n            literal.mtime = mtime\n            literal.format = format\n\n            literal.update_hlen()\n\n            msg |= literal\n")
+M('C20', 'new-compression-forced-zip', PGP, "            msg |= lit\n            msg._compression = compression\n", "            msg |= lit\n            msg._compression = CompressionAlgorithm.ZIP\n", 'C20.6')
+M('C20', 'new-sensitive-inverted', PGP, "            lit.filename = '_CONSOLE' if sensitive else os.path.basename(filename)", "            lit.filename = os.path.basename(filename) if sensitive else '_CONSOLE'", 'C20.6')
+M('C20', 'new-no-update-hlen', PGP, "            lit.update_hlen()\n\n            msg |= lit\n", "            msg |= lit\n", 'C20.6')
+T('C20', 'twin-trailing-yield-from', PGP, "            for sig in self._signatures:\n                yield sig\n\n    def __or__(self, other):\n        if isinstance(other, Marker):", "            yield from self._signatures\n\n    def __or__(self, other):\n        if isinstance(other, Marker):")
+T('C20', 'twin-ops-reversed-copy', PGP, "            for sig in reversed(self._signatures):\n                ops = sig.make_onepass()\n", "            for sig in reversed(list(self._signatures)):\n                ops = sig.make_onepass()\n")
+M('C20', 'trailing-sigs-yield-from-reversed', PGP, "            for sig in self._signatures:\n                yield sig\n\n    def __or__(self, other):\n        if isinstance(other, Marker):", "            yield from reversed(self._signatures)\n\n    def __or__(self, other):\n        if isinstance(other, Marker):", 'C20.2')
+M('C20', 'flag-dropped', PGP, "                if sig is self._signatures[0]:\n                    ops.nested = True\n                yield ops", "                yield ops", 'C20.4')
+T('C14', 'twin-export-extend', PGP, KEYSIGS, "        for sig in iter(s for s in self._signatures if not s.embedded and s.exportable):\n            _bytes.extend(sig.__bytearray__())\n")
+T('C14', 'twin-stream-inlined', PGP, TRUST + "\n        def pktgrouper():", "        def pktgrouper():",
+  more=[(PGP, "itertools.groupby(getpkt, key=pktgrouper())", "itertools.groupby(filter(lambda p: p.header.tag != PacketTag.Trust, iter(functools.partial(_getpkt, data), None)), key=pktgrouper())")])
+T('C14', 'twin-copy-binary-or', PGP, "        for uid in self._uids:\n            key |= copy.copy(uid)\n", "        for uid in self._uids:\n            key = key | copy.copy(uid)\n")
+T('C20', 'twin-new-option-bool', PGP, "        sensitive = kwargs.pop('sensitive', False)\n", "        sensitive = bool(kwargs.pop('sensitive', False))\n")
+T('C14', 'twin-grouper-closure', PGP, "        def pktgrouper():\n            class PktGrouper(object):\n                def __init__(self):\n                    self.last = None\n\n                def __call__(self, pkt):\n" + GROUPER + "            return PktGrouper()\n",
+  "        grouplabel = [None]\n\n        def grouper(pkt):\n            if pkt.header.tag != PacketTag.Signature:\n                grouplabel[0] = '{:02X}_{:s}'.format(id(pkt), pkt.__class__.__name__)\n            return grouplabel[0]\n",
+  more=[(PGP, "itertools.groupby(getpkt, key=pktgrouper())", "itertools.groupby(getpkt, key=grouper)")])
+M('C14', 'grouper-closure-every-packet', PGP, "        def pktgrouper():\n            class PktGrouper(object):\n                def __init__(self):\n                    self.last = None\n\n                def __call__(self, pkt):\n" + GROUPER + "            return PktGrouper()\n",
+  "        grouplabel = [None]\n\n        def grouper(pkt):\n            grouplabel[0] = '{:02X}_{:s}'.format(id(pkt), pkt.__class__.__name__)\n            return grouplabel[0]\n", 'C14.3',
+  more=[(PGP, "itertools.groupby(getpkt, key=pktgrouper())", "itertools.groupby(getpkt, key=grouper)")])
+T('C14', 'twin-copy-chained', PGP, "        for uid in self._uids:\n            key |= copy.copy(uid)\n\n        for id, subkey in self._children.items():\n            key |= copy.copy(subkey)\n",
+  "        for part in itertools.chain(self._uids, self._children.values()):\n            key |= copy.copy(part)\n")
+T('C14', 'twin-export-helper-filter', PGP, UIDSIGS, "            for s in self._exportable_only(uid._signatures):\n                _bytes += s.__bytearray__()\n",
+  more=[(PGP, "    def __bytearray__(self):\n        _bytes = bytearray()\n        # us\n", "    @staticmethod\n    def _exportable_only(sigs):\n        return [s for s in sigs if s.exportable]\n\n    def __bytearray__(self):\n        _bytes = bytearray()\n        # us\n")])
+M('C14', 'copy-chained-without-subkeys', PGP, "        for uid in self._uids:\n            key |= copy.copy(uid)\n\n        for id, subkey in self._children.items():\n            key |= copy.copy(subkey)\n",
+  "        for part in itertools.chain(self._uids):\n            key |= copy.copy(part)\n", 'C14.4')
+T('C14', 'twin-copy-subkeys-by-keyid', PGP, "        for id, subkey in self._children.items():\n            key |= copy.copy(subkey)\n", "        for keyid in self._children:\n            key |= copy.copy(self._children[keyid])\n")
+M('C14', 'copy-subkey-ids-instead-of-subkeys', PGP, "        for id, subkey in self._children.items():\n            key |= copy.copy(subkey)\n", "        for subkey in self._children:\n            key |= copy.copy(subkey)\n", 'C14.4')
+T('C14', 'twin-export-subkeys-by-keyid', PGP, "        for sk in self._children.values():\n            _bytes += sk.__bytearray__()\n\n        return _bytes",
+  "        for keyid in self._children:\n            _bytes += self._children[keyid].__bytearray__()\n\n        return _bytes")
+M('C14', 'export-first-subkey-only', PGP, "        for sk in self._children.values():\n            _bytes += sk.__bytearray__()\n\n        return _bytes",
+  "        for sk in list(self._children.values())[:1]:\n            _bytes += sk.__bytearray__()\n\n        return _bytes", 'C14.1')
